@@ -6,6 +6,7 @@ import vf
 for f in sorted(glob.glob(os.path.join(vf.VERIF, 'contracts', 'c*.py'))):
     if os.path.basename(f) == 'common.py': continue
     spec = importlib.util.spec_from_file_location(os.path.basename(f)[:-3], f); spec.loader.exec_module(importlib.util.module_from_spec(spec))
+for h in vf.POST: h()
 work = '/tmp/w/try'; os.makedirs(work, exist_ok=True)
 R = vf.Runner(work, keep=True)
 for cid in sys.argv[1:]:
